@@ -30,7 +30,7 @@ ASSUMPTIONS = [
     "half-unit accuracy is claimed (and checked) only under |x|*10^D < 2^51; outside it the double rounding of round()+format() can exceed half a unit, text equality with the exact model is still required",
 ]
 TRUSTED = ["CPython round()/format()/float()/int()/strftime/strptime are correctly rounded / as documented; the model computes the same results exactly and is compared with them on every case"]
-NOT_THEOREMS = ['Spec.C01.holds (stability and float clauses) for E-notation float fields holding a non-zero subnormal value (below 2^-1022): validated here by exact text equality with the model and by evaluating Spec.C01.holds on every case. It IS a theorem for F notation (every finite double, the largest one included, with the decimals-dropping loop: Props.C01.main_F_full) and for E notation with zero and every normal double (Props.C01.main_FE_full); the read-back clause is a theorem for every layout in Spec.C01.inDomain (Props.C01.readBack_of_inDomain)']
+NOT_THEOREMS = ['Spec.C01.holds (stability and float clauses) for E-notation float fields holding a non-zero value below 10^(decimals-322) (subnormal values whose last emitted digit would have place value 10^-323 or less; the statement is false at eight of them, K2 = Props.C01.subnormal_E_counterexample): validated here by exact text equality with the model and by evaluating Spec.C01.holds on every case. It IS a theorem for F notation (every finite double, the largest one included, with the decimals-dropping loop: Props.C01.main_F_full) and for E notation with zero, every normal double and every subnormal double from 10^(decimals-322) on (Proofs.FloatE.wfE; Props.C01.main_FE_full); the read-back clause is a theorem for every layout in Spec.C01.inDomain (Props.C01.readBack_of_inDomain)']
 EXHAUSTIVE = {"quick": False, "thorough": False}
 
 DATE_FMTS = ["%Y/%m/%d", "%d/%m/%Y", "%Y-%m-%d %H:%M", "%d%m%y", "%H:%M:%S", "%Y%m%d%H%M%S", "%d/%m/%Y %H:%M:%S.%f", "%m/%Y", "%y-%m-%d",
